@@ -406,6 +406,16 @@ func runQueueCheck(ctx *core.Ctx, pool *par.Pool, id string) {
 			ctx.Set("fill_depth_"+c.String(), st.Depth)
 		}
 	}
+	// (iv) thorough tier: every operation from each harvested queue state (qharvest.json), with the drain probe
+	if !quick {
+		hst, hseeds := qHarvestPass(ctx, pool, func(c QCfgSpec) []Q {
+			qc, _ := c.cfg()
+			return queueAlphabet(qc.File.PageSize, true)
+		}, 1, false, true, owns, 1)
+		total.States += hst.States
+		total.Transitions += hst.Transitions
+		ctx.Set("harvested_seed_states", hseeds)
+	}
 	ctx.Set("shapes_run", shapesRun)
 	ctx.Set("shape_operations", shapeOpsRun)
 	ctx.Set("shape_outcomes", outcomes)
@@ -485,6 +495,25 @@ func runC12(ctx *core.Ctx, pool *par.Pool) {
 		total.States += st.States
 		total.Transitions += st.Transitions
 		ctx.Set("depth_full-after-reopen_"+c.String(), st.Depth)
+	}
+	// harvested queue states (qharvest.json): every operation (thorough: every pair) from each far-away start state,
+	// with the space oracle and the drain probe
+	{
+		hd, stride := 1, 2
+		if !quick {
+			hd, stride = 2, 1
+		}
+		hst, hseeds := qHarvestPass(ctx, pool, func(c QCfgSpec) []Q {
+			qc, _ := c.cfg()
+			a := queueAlphabet(qc.File.PageSize, true)
+			if qc.File.MaxPages > 0 {
+				a = append(a, fillAlphabet(c, true)...)
+			}
+			return a
+		}, hd, true, true, ownsC12, stride)
+		total.States += hst.States
+		total.Transitions += hst.Transitions
+		ctx.Set("harvested_seed_states", hseeds)
 	}
 	// fill-to-error / drain cycles as long scripted paths
 	cycles := 0
